@@ -12,7 +12,7 @@ def run(ctx):
     T(ctx, 'C05_group2', perm=1, pres=0, ng=2, gpres=3, defs=defs, extra_defs=pm, tier='thorough', timeout=2400)
     ctx.assumptions += codec.DECODE_ASSUMPTIONS + ['re-encoding is not executed: MessageBase::encode emits each component\'s fields followed by its _unknown string (runtime/message.cpp:368), so the pass-through strings of header, body and trailer determine the re-emitted unknown bytes',
                                                    'unknown tokens inside repeating groups: thorough tier only']
-    ctx.solve(jobs=4)
+    ctx.solve(jobs=codec.JOBS)
     ctx.handle_failures(codec.replay, kf)
     announce_known(ctx, kf, codec.replay)
     return ctx.finish()
